@@ -30,26 +30,15 @@ Proof. exact rstr_simple_complete. Qed.
 Print Assumptions C12_simple_forms.
 
 (* found/not-found and offsets: for every pattern the classifier accepts, every newline-terminated
-   line and every flag set (ignore-case, NOTBOL, NOTEOL -- except $ under NOTEOL, see below) the
+   line and every flag set (ignore-case, NOTBOL, NOTEOL) the
    byte scan of rstr_find answers the leftmost position at which the literal occurs and the
    anchors hold on the real neighbouring bytes *)
 Theorem C12_equiv_spec : forall ic p rs content notbol noteol,
   rstr_simple ic p = Some rs ->
   ~ In 0 content -> ~ In 10 content -> ~ In 10 p ->
-  r_lend rs && noteol = false ->
   rstr_find rs (content ++ [10]) notbol noteol = spec_res (spat_of rs) ic notbol content.
 Proof. exact equiv_spec_pat. Qed.
 Print Assumptions C12_equiv_spec.
-
-(* $ under NOTEOL: the fast path answers "not found" although the line end is the position before
-   the newline, which NOTEOL does not disable (finding KF-NOTEOL; the editor never passes NOTEOL
-   to rstr_find) *)
-Theorem C12_noteol_refuted : exists rs content,
-  rstr_simple false [97; 36] = Some rs /\
-  rstr_find rs (content ++ [10]) false true = NotFound /\
-  spec_res (spat_of rs) false false content = Found 0 1.
-Proof. exact noteol_refuted. Qed.
-Print Assumptions C12_noteol_refuted.
 
 (* groups other than the whole match are reported unset *)
 Theorem C12_groups_unset : forall n so eo i, (1 <= i < n)%nat ->
@@ -71,5 +60,7 @@ Example C12_nonvacuous :
      rstr_find rs ([65; 98] ++ [10]) false false = Found 0 2) /\
   (exists rs, rstr_simple false [92; 60; 97] = Some rs /\
      rstr_find rs ([98; 97; 32; 97] ++ [10]) false false = Found 3 4) /\
+  (exists rs, rstr_simple false [97; 36] = Some rs /\          (* a$ under NOTEOL *)
+     rstr_find rs ([97] ++ [10]) false true = Found 0 1) /\
   rstr_simple false [97; 124; 98] = None.
 Proof. vm_compute. repeat split; eexists; split; reflexivity. Qed.
